@@ -181,6 +181,7 @@ func runC04(p *core.Prog, r *core.Report) {
 	// ------------------------------------------------------------------ R2 / R3 / R4 on handleStepNew
 	r.Guard("C04.R2", "pending-undo", "pending undo sent once", func() { checkPendingUndoSentOnce(p, r, "C04.R2") })
 	r.Guard("C04.R2", "gate-and-undo", "nothing below the start block", func() { checkGateAndUndo(p, r, "C04.R2") })
+	r.GuardExact("C04.R1", "step-equality", "equality dispatch on steps covers new+irreversible", func() { checkStepEqualityCoversCombined(p, r, "C04.R1") })
 	r.Guard("C04.R2", "handleStepNew", "stop test first", func() {
 		fn := p.Func(pkgPipe, "Pipeline.handleStepNew")
 		r.Touch(core.FuncName(fn))
